@@ -57,8 +57,8 @@ func main() {
 		var result string
 		if lines/numNodes == 0 {
 			var i uint64 = 1
-			for ; i < lines; i++ {
-				if i == lines-1 {
+			for ; i <= lines; i++ {
+				if i == lines {
 					result += fmt.Sprintf("%d-%d", i, i)
 				} else {
 					result += fmt.Sprintf("%d-%d ", i, i)
@@ -82,8 +82,8 @@ func main() {
 					lastSlice = lastSlice + sizePerSlice
 				}
 			}
-			fmt.Print(result)
 		}
+		fmt.Print(result)
 	}
 }
 
